@@ -309,6 +309,14 @@ def check_bigdir(case, ev):
         ref = None
         for k in range(case["runs"]):
             out = os.path.join(d, "out%d" % k)
+            if k and ref is not None:
+                # later runs write over what an earlier, LONGER run left at the same paths (and dump path)
+                for rel_, data_ in ref[0].items():
+                    os.makedirs(os.path.dirname(os.path.join(out, rel_)), exist_ok=True)
+                    with open(os.path.join(out, rel_), "wb") as fh_:
+                        fh_.write(data_ + b"! left over from an earlier run\n" * 25)
+                with open(os.path.join(d, "dump%d" % k), "wb") as fh_:
+                    fh_.write(ref[1] + b"1.2.3.4\t5.6.7.8\n" * 25)
             _, exc = guarded(anonymize_files, os.path.join(d, "in"), out, True, True, salt="Tsalt", dumpfile=os.path.join(d, "dump%d" % k))
             if exc is not None:
                 return core.exc_finding(exc, case, "anonymize_files/")
